@@ -4,6 +4,6 @@ CONSTANTS
   Rows <- RowsBytesSel
   Start = "x"
   MaxN = 4
-  Impl = "asis"
+  Impl = "fixed"
 INVARIANTS TokensSame Shrinks
 CHECK_DEADLOCK FALSE
